@@ -98,3 +98,122 @@ def comment_parsers(prog):
         if any((hir.pat_variant(alt) or "").endswith("tokens::TokenType::Comment") for p in pats for alt in hir.pat_alternatives(p)):
             res.add(b["p"])
     return res
+
+
+def comment_helpers(prog):
+    """The formatter's comment re-attachment helpers, by role: fn(String, &[Token], [mode]) -> String in lsp4spl that
+    tests tokens for TokenType::Comment.  -> dict path -> {"body", "mode": param index or None, "markers": [...]}.
+    classify_comment_call(prog, call) tells whether a call keeps *all* comments of the slice or only the *leading* ones."""
+    key = (id(prog), "comment_helpers")
+    if key in _cache:
+        return _cache[key]
+    c = prog.lsp
+    res = {}
+    for b in c.bodies:
+        if b["k"] not in ("fn", "assoc_fn") or "/tests" in c.file_of(b["sp"]) or not b["p"].startswith("lsp4spl::features::formatting"):
+            continue
+        ins, out = _sig(c, b)
+        if not ins or out != "std::string::String" or "std::string::String" not in ins or not any("[spl_frontend::tokens::Token]" in i for i in ins):
+            continue
+        pats = []
+        for n in hir.nodes_deep(prog, b["body"], 1, crate=c):
+            if n.get("k") == "LetExpr":
+                pats.append(n["pat"])
+            elif n.get("k") == "Match":
+                pats += [a["pat"] for a in n["arms"]]
+        if not any(v.endswith("tokens::TokenType::Comment") for p in pats for v in hir.pat_variants_all(p)):
+            continue
+        mode = None
+        for i, t in enumerate(ins):
+            if t != "std::string::String" and "Token]" not in t and "FormattingOptions" not in t:
+                mode = i
+        res[b["p"]] = {"body": b, "mode": mode}
+    _cache[key] = res
+    return res
+
+
+def _variant_of(e):
+    """enum variant / bool literal an expression denotes"""
+    e = hir.strip_ref(e)
+    if e.get("k") == "Path" and e["res"].get("ctor_of"):
+        return e["res"]["ctor_of"]
+    if e.get("k") == "Lit":
+        v = hir.lit_value(e)
+        if isinstance(v, bool):
+            return v
+    return None
+
+
+def classify_comment_call(prog, call):
+    """'all' | 'leading' | None (cannot tell) for a call of a comment helper"""
+    hs = comment_helpers(prog)
+    h = hs.get(hir.callee(call) or "")
+    if h is None:
+        return None
+    b = h["body"]
+    mode_id = None
+    if h["mode"] is not None:
+        bs = list(hir.pat_bindings(b["params"][h["mode"]]))
+        mode_id = bs[0]["id"] if len(bs) == 1 else None
+        arg = _variant_of(call["args"][h["mode"]]) if h["mode"] < len(call["args"]) else None
+        if mode_id is None or arg is None:
+            return None
+    else:
+        arg = None
+
+    def is_mode(e):
+        pl = hir.path_local(hir.strip_ref(e))
+        return bool(pl) and pl["id"] == mode_id
+
+    def mentions_mode(e):
+        return mode_id is not None and any(is_mode(x) for x in hir.nodes(e, "Path"))
+
+    # iteration stops: map_while / take_while adaptors and `break`
+    verdict = "all"
+    for n, parents in hir.walk(b["body"]):
+        stop = n.get("k") == "Break" or (n.get("k") == "MethodCall" and n["m"] in ("map_while", "take_while"))
+        if not stop:
+            continue
+        # conditions on the mode parameter that guard this stop
+        applies = True
+        chain = list(parents) + [n]
+        for i, p in enumerate(chain[:-1]):
+            nxt = chain[i + 1]
+            if p.get("k") == "If" and mentions_mode(p["cond"]):
+                cond = hir.strip(p["cond"])
+                side = "then" if nxt is p.get("then") else "else" if nxt is p.get("else") else None
+                if side is None:
+                    continue
+                want = None
+                if cond.get("k") == "Binary" and cond["op"] in ("==", "!="):
+                    l, r = cond["l"], cond["r"]
+                    v = _variant_of(r) if is_mode(l) else _variant_of(l) if is_mode(r) else None
+                    if v is None:
+                        return None
+                    want = (arg == v) if cond["op"] == "==" else (arg != v)
+                elif is_mode(cond):
+                    want = arg is True
+                elif cond.get("k") == "Unary" and is_mode(cond.get("e", {})):
+                    want = arg is False
+                elif cond.get("k") == "Match" and is_mode(cond["scrut"]) and "matches!" in (cond.get("mx") or []):
+                    vs = hir.pat_variants_all(cond["arms"][0]["pat"])
+                    want = arg in vs
+                else:
+                    return None
+                if side == "else":
+                    want = not want
+                applies = applies and want
+            elif p.get("k") == "Match" and is_mode(p["scrut"]):
+                arm = nxt if nxt.get("k") == "Arm" else None
+                if arm is None:
+                    continue
+                vs = hir.pat_variants_all(arm["pat"])
+                if vs:
+                    applies = applies and arg in vs
+                else:
+                    # wildcard arm: applies if no earlier arm names the variant
+                    named = [v for a in p["arms"] for v in hir.pat_variants_all(a["pat"])]
+                    applies = applies and arg not in named
+        if applies:
+            verdict = "leading"
+    return verdict
